@@ -271,4 +271,296 @@ theorem verify_ok_iff {cfg : Cfg} {P : Crypto} {E : Env} {au cs : Bool} {at_ : O
     · intro ⟨⟨a, b, c', d, e, f⟩, g⟩; exact ⟨a, b, c', d, e, f, g⟩
     · intro ⟨a, b, c', d, e, f, g⟩; exact ⟨⟨a, b, c', d, e, f⟩, g⟩
 
+theorem verifyVCs_ok_iff (cfg : Cfg) (P : Crypto) (E : Env) (au : Bool) (at_ : Option Time) (vp : Pres) (l : List Cred) :
+    verifyVCs cfg P E au at_ vp l = .ok () ↔ ∀ c ∈ l, verify cfg P E au (vcCheckSig vp c) at_ c = .ok () := by
+  induction l with
+  | nil => simp [verifyVCs]
+  | cons c cs ih =>
+    unfold verifyVCs
+    cases h : verify cfg P E au (vcCheckSig vp c) at_ c with
+    | ok u => simp [h, ih]
+    | err e => simp [h]
+    | panic s => simp [h]
+
+theorem subjectDID_ne_empty {c : Cred} {d : String} (h : subjectDID c = some d) : d ≠ "" := by
+  unfold subjectDID at h
+  cases hs : c.subjects with
+  | none => simp [hs] at h
+  | some l =>
+    cases l with
+    | nil => simp [hs] at h
+    | cons s rest =>
+      simp only [hs] at h
+      split at h
+      · cases s with
+        | empty => simp at h
+        | did x =>
+          simp only at h
+          split at h
+          · cases h
+          · rename_i hne; cases h; simpa using hne
+      · cases h
+
+/-- with a non-empty accumulator, ResolveSubjectDID only succeeds when every credential has exactly that subject -/
+theorem resolveSubjectDID_acc {l : List Cred} {acc d : String} (hacc : acc ≠ "")
+    (h : resolveSubjectDID l acc = some d) : d = acc ∧ ∀ c ∈ l, subjectDID c = some acc := by
+  induction l generalizing acc with
+  | nil => simp [resolveSubjectDID] at h; exact ⟨h.symm, by simp⟩
+  | cons c cs ih =>
+    unfold resolveSubjectDID at h
+    cases hs : subjectDID c with
+    | none => simp [hs] at h
+    | some x =>
+      simp only [hs] at h
+      split at h
+      · cases h
+      · rename_i hcond
+        have hx : acc = x := by
+          simp at hcond
+          exact hcond hacc
+        subst hx
+        obtain ⟨h1, h2⟩ := ih hacc h
+        refine ⟨h1, ?_⟩
+        intro c' hc'
+        cases hc' with
+        | head => exact hs
+        | tail _ hm => exact h2 c' hm
+
+/-- ResolveSubjectDID from the empty accumulator: all credentials share the returned subject -/
+theorem resolveSubjectDID_all {l : List Cred} {d : String} (h : resolveSubjectDID l "" = some d) :
+    (l = [] ∧ d = "") ∨ (d ≠ "" ∧ ∀ c ∈ l, subjectDID c = some d) := by
+  cases l with
+  | nil => simp [resolveSubjectDID] at h; exact Or.inl ⟨rfl, h⟩
+  | cons c cs =>
+    right
+    unfold resolveSubjectDID at h
+    cases hs : subjectDID c with
+    | none => simp [hs] at h
+    | some x =>
+      simp only [hs] at h
+      have hx := subjectDID_ne_empty hs
+      simp at h
+      obtain ⟨h1, h2⟩ := resolveSubjectDID_acc hx h
+      subst h1
+      refine ⟨hx, ?_⟩
+      intro c' hc'
+      cases hc' with
+      | head => exact hs
+      | tail _ hm => exact h2 c' hm
+
+def VpSigValid (cfg : Cfg) (P : Crypto) (E : Env) (at_ : Option Time) (vp : Pres) (signer : String) : Prop :=
+  match vp.format with
+  | .ld => signer ≠ "" ∧ LdSigned cfg P E at_ signer (P.canonVP vp.stripProof) { proof := vp.proof, caseVariant := vp.caseVariant }
+  | .jwt => JwtSigned cfg P E at_ signer vp.raw vp.jwt
+  | .other => False
+
+theorem vpSignatureChecks_ok_iff {cfg : Cfg} {P : Crypto} {E : Env} {at_ : Option Time} {vp : Pres} {signer : String} :
+    runChecks (vpSignatureChecks cfg P E at_ vp signer) vp = .ok () ↔ VpSigValid cfg P E at_ vp signer := by
+  unfold vpSignatureChecks VpSigValid
+  cases vp.format with
+  | ld => simp only [runChecks_map_lift]; exact ld_accept_iff
+  | jwt => simp only [runChecks_map_lift]; exact jwt_accept_iff
+  | other => simp [runChecks, chkFormat]
+
+/-- the conjunction of all checks of `doVerifyVP` -/
+def VpAccept (cfg : Cfg) (P : Crypto) (E : Env) (verifyVCsFlag au : Bool) (at_ : Option Time) (vp : Pres) : Prop :=
+  ∃ s d, presentationSigner E vp = some s ∧ resolveSubjectDID vp.vcs "" = some d ∧
+    (s = d ∨ vp.vcs = []) ∧ (s = d → vp.holder = none ∨ vp.holder = some s) ∧
+    VpSigValid cfg P E at_ vp s ∧
+    (verifyVCsFlag = true → ∀ c ∈ vp.vcs, verify cfg P E au (vcCheckSig vp c) at_ c = .ok ())
+
+theorem vpHeadChecks_ok_iff {E : Env} {vp : Pres} :
+    runChecks (vpHeadChecks E) vp = .ok () ↔
+      ∃ s d, presentationSigner E vp = some s ∧ resolveSubjectDID vp.vcs "" = some d ∧
+        (s = d ∨ vp.vcs = []) ∧ (s = d → vp.holder = none ∨ vp.holder = some s) := by
+  rw [runChecks_ok_iff]
+  simp only [vpHeadChecks, List.mem_cons, List.not_mem_nil, or_false, forall_eq_or_imp, forall_eq]
+  unfold vpResolves vpSignerIsSubject vpHolderIsSubject
+  cases hs : presentationSigner E vp with
+  | none => simp [hs, guard_pass_iff]
+  | some s =>
+    cases hd : resolveSubjectDID vp.vcs "" with
+    | none => simp [hs, hd, guard_pass_iff]
+    | some d =>
+      simp only [hs, hd, guard_pass_iff]
+      simp
+      intro _
+      constructor
+      · intro h hsd
+        rcases h with (h | h) | h
+        · exact absurd hsd h
+        · exact Or.inl h
+        · exact Or.inr h
+      · intro h
+        by_cases hsd : s = d
+        · cases h hsd with
+          | inl h => exact Or.inl (Or.inr h)
+          | inr h => exact Or.inr h
+        · exact Or.inl (Or.inl hsd)
+
+theorem verifyVP_ok_iff {cfg : Cfg} {P : Crypto} {E : Env} {vf au : Bool} {at_ : Option Time} {vp : Pres} :
+    verifyVP cfg P E vf au at_ vp = .ok () ↔ VpAccept cfg P E vf au at_ vp := by
+  unfold verifyVP VpAccept
+  cases hh : runChecks (vpHeadChecks E) vp with
+  | err e =>
+    simp only []
+    constructor
+    · intro h; cases h
+    · intro ⟨s, d, h1, h2, h3, h4, _⟩
+      have := vpHeadChecks_ok_iff.mpr ⟨s, d, h1, h2, h3, h4⟩
+      rw [hh] at this; cases this
+  | panic e =>
+    simp only []
+    constructor
+    · intro h; cases h
+    · intro ⟨s, d, h1, h2, h3, h4, _⟩
+      have := vpHeadChecks_ok_iff.mpr ⟨s, d, h1, h2, h3, h4⟩
+      rw [hh] at this; cases this
+  | ok u =>
+    obtain ⟨s, d, h1, h2, h3, h4⟩ := vpHeadChecks_ok_iff.mp (by rw [hh])
+    simp only [h1, Option.getD_some]
+    cases hsg : runChecks (vpSignatureChecks cfg P E at_ vp s) vp with
+    | err e =>
+      simp only []
+      constructor
+      · intro h; cases h
+      · intro ⟨s', d', h1', _, _, _, h5, _⟩
+        cases h1'
+        have := vpSignatureChecks_ok_iff.mpr h5
+        rw [hsg] at this; cases this
+    | panic e =>
+      simp only []
+      constructor
+      · intro h; cases h
+      · intro ⟨s', d', h1', _, _, _, h5, _⟩
+        cases h1'
+        have := vpSignatureChecks_ok_iff.mpr h5
+        rw [hsg] at this; cases this
+    | ok u' =>
+      have h5 := vpSignatureChecks_ok_iff.mp (by rw [hsg])
+      simp only []
+      cases vf with
+      | false =>
+        constructor
+        · intro _; exact ⟨s, d, rfl, h2, h3, h4, h5, by intro h; cases h⟩
+        · intro _; simp
+      | true =>
+        simp only [if_true, verifyVCs_ok_iff, true_implies]
+        constructor
+        · intro h; exact ⟨s, d, rfl, h2, h3, h4, h5, h⟩
+        · intro ⟨s', d', h1', _, _, _, _, h6⟩; exact h6
+
+/-- the members of a credential the canonical form has to determine (the canonicalisation contract), given which
+    credentialSubject paths the JSON-LD context defines -/
+structure SignedView where
+  id : Option String
+  types : List String
+  issuer : String
+  issued : Time
+  expires : Option Time
+  subjects : Option (List SubjId)
+  statuses : Option (List Status)
+  claims : List (String × String)
+  deriving DecidableEq
+
+def signedView (defined : String → Bool) (c : Cred) : SignedView :=
+  { id := c.id, types := c.types, issuer := c.issuer, issued := c.issued, expires := c.expires, subjects := c.subjects,
+    statuses := c.statuses, claims := c.claims.filter (fun m => defined m.1) }
+
+/-- everything the node reads from a JWT credential -/
+def jwtView (c : Cred) : SignedView × Option (String × String × Option Time × Option Time × Option Time) :=
+  (signedView (fun _ => true) c, c.jwt.map (fun j => (j.kid, j.alg, j.nbf, j.exp, j.iat)))
+
+
+theorem runChecks_congr_arg {α} (l : List (Check α)) (x x' : α) (h : ∀ c ∈ l, c.run x = c.run x') :
+    runChecks l x = runChecks l x' := by
+  induction l with
+  | nil => rfl
+  | cons c cs ih =>
+    unfold runChecks
+    rw [h c (by simp)]
+    cases c.run x' with
+    | pass => exact ih (fun c' hc' => h c' (by simp [hc']))
+    | fail e => rfl
+    | panic s => rfl
+
+/-- `Verify` reads the claims of a credential only through the canonical form -/
+theorem verify_congr_claims (cfg : Cfg) (P : Crypto) (E : Env) (au cs : Bool) (at_ : Option Time) (c : Cred)
+    (cl : List (String × String))
+    (hcanon : P.canon (Cred.stripProof { c with claims := cl }) = P.canon c.stripProof) :
+    verify cfg P E au cs at_ { c with claims := cl } = verify cfg P E au cs at_ c := by
+  unfold verify vcChecks
+  have hsig : signatureChecks cfg P E at_ { c with claims := cl } = signatureChecks cfg P E at_ c := by
+    unfold signatureChecks
+    simp only [hcanon]
+  rw [hsig]
+  apply runChecks_congr_arg
+  intro chk hchk
+  simp only [List.mem_append] at hchk
+  rcases hchk with hchk | hchk
+  · simp [preChecks] at hchk
+    rcases hchk with rfl | rfl | rfl | rfl | rfl | rfl <;> rfl
+  · cases cs with
+    | false => simp at hchk
+    | true =>
+      simp only [if_true, List.mem_append] at hchk
+      rcases hchk with hchk | hchk
+      · simp [issuerChecks] at hchk
+        rcases hchk with rfl | rfl <;> rfl
+      · unfold signatureChecks at hchk
+        cases hf : c.format with
+        | ld =>
+          simp only [hf, List.mem_map] at hchk
+          obtain ⟨a, _, rfl⟩ := hchk
+          rfl
+        | jwt =>
+          simp only [hf, List.mem_map] at hchk
+          obtain ⟨a, _, rfl⟩ := hchk
+          rfl
+        | other =>
+          simp only [hf, List.mem_singleton] at hchk
+          subst hchk
+          rfl
+
+
+theorem validate_congr {E E' : Env} (h : E'.didOfURL = E.didOfURL) (c : Cred) : validate E' c = validate E c := by
+  unfold validate validateNuts validateNutsCredentialID
+  rw [h]
+
+theorem validateDefault_pass {c : Cred} (h : validateDefault c = .pass) : c.issuer ≠ "" := by
+  unfold validateDefault at h
+  rw [guard_pass_iff] at h
+  simp at h
+  exact h.1.1.1.2
+
+theorem validate_pass_issuer {E : Env} {c : Cred} (h : validate E c = .pass) : c.issuer ≠ "" := by
+  unfold validate at h
+  split at h
+  · exact validateDefault_pass h
+  all_goals
+    unfold validateNuts at h
+    split at h
+    · split at h
+      · exact validateDefault_pass h
+      · cases h
+    · rename_i o hne; 
+      cases o <;> simp_all
+
+theorem beforeHash_empty : beforeHash "" = "" := by decide
+
+theorem issued_types_le_two (t : Template)
+    (h : ¬(t.types.length == 0 || t.types.length > 2 || (t.types.length == 2 && !t.types.contains vcType)) = true) :
+    (if t.types.contains vcType then t.types else t.types ++ [vcType]).length ≤ 2 := by
+  simp at h
+  split
+  · omega
+  · rename_i hc
+    simp only [List.length_append, List.length_cons, List.length_nil]
+    have : t.types.length ≠ 2 := by
+      intro h2
+      have := h.2 h2
+      simp at hc
+      simp_all
+    omega
+
 end Nuts.C01
